@@ -649,6 +649,9 @@ static void emit_strings(scan_ctx* sc, YR_SCAN_CONTEXT* ctx, YR_RULE* rule)
   {
     YR_MATCH* m;
     int n = 0;
+    /* pieces of a split (chained) string other than its head carry no matches */
+    if (str->chained_to != NULL)
+      continue;
     for (m = ctx->matches[str->idx].head; m != NULL; m = m->next) n++;
     sb_printf(&sc->out, " s %s %d\n", str->identifier, n);
     for (m = ctx->matches[str->idx].head; m != NULL; m = m->next)
